@@ -1,4 +1,4 @@
-import Csverif.Proofs.StateUpdate
+import Csverif.Proofs.StateItem
 /-
 C11 — sync-state index integrity (cloudsync/sync/state.py, `SyncState`'s index machinery).
 
@@ -16,12 +16,13 @@ Clauses of the natural statement that are FALSE of the code (each kept below as 
 counterexample that the harness replays on the real `SyncState`):
 
   * "an entry that carries a path on a side carries an id on it"      — `cex_path_without_id`
-  * "every entry of the pending set has a change flag with an id"      — `cex_pending_without_flag`
-  * "the pending set holds nothing that has been forgotten"            — `cex_pending_holds_forgotten`
-  * `forget_oid` leaves an empty bucket / raises KeyError for a pathless entry — `cex_forget_empty_bucket`, `cex_forget_keyerror`
+  * "every entry of the pending set has a change flag with an id"      — `cex_pending_without_id`
   * after a reload absent sides are indexed under `None` and such slots go stale — `cex_reload_stale_slot`
-  * the hook does not always terminate: `cex_kids_mutual_recursion` (two directory entries), `changed_diverges`
-    (both sides flagged without an id; proved for every fuel)
+  * the hook does not always terminate: `cex_kids_mutual_recursion` (two directory entries)
+
+Repaired in the code (fix A = `forget_oid`, fix B = direct `_changed = 0` write) and now theorems instead of counterexamples:
+`forget_total`, `forget_inv` (no KeyError, no empty bucket, the forgotten entry leaves the pending set),
+`setattr_changed_total` (the `changed` rule no longer recurses), `fixed_*` (the old failing inputs, kernel-checked).
 
 What is proved (no size or step bound; all quantifiers are over arbitrary states, entries, values and configurations):
 
@@ -33,16 +34,19 @@ What is proved (no size or step bound; all quantifiers are over arbitrary states
                                        its non-directory kids are moved with it: `kidsLoop_tr`)
   * `setattr_oid_total`                `ent[side].oid = v` (including the recursive ousting of previous owners) needs at most
                                        two levels of recursion and raises nothing
-  * `setattr_changed_total` / `changed_diverges`   the `changed` rule terminates within two levels unless both sides are
-                                       flagged and id-less, in which case it never terminates (for every fuel)
+  * `setattr_changed_total`            `ent[side].changed = v` needs one level and raises nothing (fix B)
   * `step_inv` / `run_inv`             the state-level operations — hooked assignments, `ignored`/`priority`/`punt`/`unignore`,
                                        `mark_changed`, `SideState.clear`, `update_entry` (guard `KidsLeaves`), raw events `update`
-                                       for both id styles (guard `FlatK` and "no merge-copy", `mergeCopies = false`) —
+                                       for both id styles (guard `FlatK` and "no merge-copy", `mergeCopies = false`), `split`
+                                       (no guard), `__setitem__` (guard `LeafAt`: the receiving side is not a directory with a path) —
                                        preserve `IndexInv` under `OpGuard`, hence every guarded sequence does (induction)
-  * `forget_sound`                     `forget_oid` keeps the slot-soundness half (`SlotSound`) on every outcome
+  * `forget_total` / `forget_inv`      `forget_oid` raises nothing; afterwards every clause of `IndexInv` holds with the forgotten entry
+                                       side exempt from "found under its id / (path, id)" (it keeps its `oid`/`path` fields by design),
+                                       that entry has no slot left on the side and is not pending
 
 NOT proved (model + differential tie only; stated here so that nothing is claimed silently):
-  * preservation by `split`, `__setitem__` and by the merge-copy branch of `update` (state.py:1155-1157) — `OpGuard` is `False` there
+  * preservation by the merge-copy branch of `update` (state.py:1155-1157; it calls `__setitem__`, which is proved on its own, but
+    the guard of the following path assignment is not carried across it) and by `__setitem__` onto a directory side that has a path
   * moves of a directory that has directory entries beneath it (beyond `PathGuard`); termination of `_update_kids`
   * uniqueness of dictionary keys (the clauses are stated through first-match lookups `AL.get` / `St.slot`)
   * the loader (`reload`): it breaks `IndexInv` (`cex_reload_breaks_inv`)
@@ -82,57 +86,9 @@ theorem setattr_oid_total (cfg : Cfg) (n : Nat) (e : Nat) (s : Sd) (v : Oid) (st
   · exact hf.elim
   · exact ⟨hok, h1, h2⟩
 
-/-- both sides carry a change flag and neither carries an id -/
-def BothDangling (st : St) (e : Nat) : Prop :=
-  ∀ s, (st.side e s).changed.truthy = true ∧ truthyS (st.side e s).oid = false
-
-/-- …then every assignment to `changed` recurses forever (RecursionError on the real code) -/
-theorem changed_diverges (cfg : Cfg) : ∀ (n : Nat) (e : Nat) (s : Sd) (v : Chg) (st : St), BothDangling st e →
-    (sideSet cfg n e s (.changed v) st).1 = .error .recursion
-  | 0, _, _, _, _, _ => rfl
-  | n + 1, e, s, v, st, hb => by
-    show (sideSetBody (sideSet cfg n) cfg e s (.changed v) st).1 = _
-    rw [sideSetBody_changed_eq]
-    have h1 := hb s
-    have h2 := hb s.other
-    have hc : ((v.truthy && truthyS (st.side e s).oid) || ((st.side e s.other).changed.truthy && truthyS (st.side e s.other).oid)) = false := by
-      simp [h1.2, h2.2]
-    have hw : ((st.side e s.other).changed.truthy && !truthyS (st.side e s.other).oid) = true := by simp [h2.1, h2.2]
-    simp only [hc, Bool.false_eq_true, if_false, hw, whenM, if_true]
-    have := changed_diverges cfg n e s.other (.num 0) (st.csDiscard e) (fun s' => by simpa using hb s')
-    cases hr : sideSet cfg n e s.other (.changed (.num 0)) (st.csDiscard e) with
-    | mk r s2 => rw [hr] at this; simp only at this; subst this; rfl
-
-/-- …otherwise two levels suffice -/
-theorem setattr_changed_total (cfg : Cfg) (n : Nat) (e : Nat) (s : Sd) (v : Chg) (st : St) (hb : ¬ BothDangling st e) :
-    (sideSet cfg (n + 2) e s (.changed v) st).1 = .ok () := by
-  show (sideSetBody (sideSet cfg (n + 1)) cfg e s (.changed v) st).1 = _
-  rw [sideSetBody_changed_eq]
-  split
-  · rfl
-  · next hc =>
-    by_cases hw : ((st.side e s.other).changed.truthy && !truthyS (st.side e s.other).oid) = true
-    · simp only [hw, whenM, if_true]
-      have h2 : sideSet cfg (n + 1) e s.other (.changed (.num 0)) (st.csDiscard e) =
-          sideSetBody (sideSet cfg n) cfg e s.other (.changed (.num 0)) (st.csDiscard e) := rfl
-      rw [h2, sideSetBody_changed_eq]
-      have hoo : s.other.other = s := by cases s <;> rfl
-      simp only [side_csDiscard, hoo]
-      have hw2 : ((st.side e s).changed.truthy && !truthyS (st.side e s).oid) = false := by
-        cases h : ((st.side e s).changed.truthy && !truthyS (st.side e s).oid) with
-        | false => rfl
-        | true =>
-          exfalso; apply hb
-          intro s'
-          simp only [Bool.and_eq_true, Bool.not_eq_true'] at h hw
-          rcases Sd.eq_or_other s s' with hs | hs
-          · subst hs; exact h
-          · subst hs; exact hw
-      by_cases hc2 : (((Chg.num 0).truthy && truthyS (st.side e s.other).oid) ||
-          ((st.side e s).changed.truthy && truthyS (st.side e s).oid)) = true
-      · simp only [hc2, if_true]
-      · simp only [hc2, Bool.false_eq_true, if_false, hw2, whenM, M.pure_apply]
-    · simp only [hw, whenM, Bool.false_eq_true, if_false, M.pure_apply]
+/-- `ent[side].changed = v` with one level of fuel: total (fix B removed the mutual recursion of the two sides) -/
+theorem setattr_changed_total (cfg : Cfg) (n : Nat) (e : Nat) (s : Sd) (v : Chg) (st : St) :
+    (sideSet cfg (n + 1) e s (.changed v) st).1 = .ok () := chg_total cfg n e s v st
 
 /-! ### state-level operations -/
 
@@ -150,6 +106,8 @@ def OpGuard (cfg : Cfg) (st : St) : Op → Prop
   | .setSide e s fv => PathGuard cfg st e s fv
   | .updateEntry e s _ => KidsLeaves cfg st s e
   | .update s _ a prior => FlatK cfg s st ∧ mergeCopies st s a prior = false
+  | .split _ => True
+  | .setItem d sd _ _ => LeafAt st d sd
   | .tick _ | .setIgnored _ _ | .setPriority _ _ | .punt _ | .unignore _ _ | .commit | .clear _ _ | .mark _ _ => True
   | _ => False
 
@@ -202,8 +160,15 @@ theorem step_inv (cfg : Cfg) (fuel : Nat) (op : Op) (st : St) (hi : IndexInv st)
       | updateEntry e s a =>
         have he : e < st0.ents.length := hrefs e (by simp [Op.refs])
         exact (updateEntry_tr cfg fuel e s a st0.ents.length he).pre (fun st' h => by rw [h.1]; exact ⟨⟨hi, rfl⟩, hg⟩)
-      | split _ => exact hg.elim
-      | setItem _ _ _ _ => exact hg.elim
+      | split e =>
+        have he : e < st0.ents.length := hrefs e (by simp [Op.refs])
+        refine Tr.bind (R := fun _ st' => InvL (st0.ents.length + 1) st') ((split_tr cfg fuel e st0.ents.length he).pre hIL)
+          (fun _ => Tr.pure (fun _ h => h.1))
+      | setItem d sd sr ss =>
+        have hd : d < st0.ents.length := hrefs d (by simp [Op.refs])
+        have hs : sr < st0.ents.length := hrefs sr (by simp [Op.refs])
+        exact (setItem_tr cfg fuel d sd sr ss st0.ents.length hd hs).conseq (fun st' h => ⟨hIL st' h, by rw [h.1]; exact hg⟩)
+          (fun _ _ h => h.1) (fun _ h => h)
       | forget _ _ => exact hg.elim
       | reload => exact hg.elim
   exact key.run_inv (fun _ _ h => h) st rfl hrec
@@ -222,119 +187,55 @@ theorem run_inv (cfg : Cfg) (fuel : Nat) : ∀ (ops : List Op) (st : St), IndexI
 theorem run_inv_init (cfg : Cfg) (fuel : Nat) (ops : List Op) (h : Guarded cfg fuel ops init) : IndexInv (run cfg fuel ops init) :=
   run_inv cfg fuel ops init init_inv h
 
-/-! ### `forget_oid`: only the slot-soundness part survives -/
-
-/-- the soundness half of `IndexInv`: no slot leads to an entry that does not carry what the slot says -/
-structure SlotSound (st : St) : Prop where
-  bnd : ∀ s k i, AL.get (st.oids s) k = some i → i < st.ents.length
-  oidKey : ∀ s, AL.get (st.oids s) none = none
-  oidSlot : ∀ s k i, AL.get (st.oids s) k = some i → (st.side i s).oid = k
-  pathSlot : ∀ s p k i, st.slot s p k = some i →
-      (st.side i s).path = p ∧ (st.side i s).oid = k ∧ AL.get (st.oids s) k = some i
-
-theorem slot_forget_set (st : St) (s : Sd) (p : Option Path.Str) (b : List (Oid × Nat)) (k : Oid)
-    (hb : AL.get (st.paths s) p = some b) (s' : Sd) (p' : Option Path.Str) (k' : Oid) :
-    ((st.setOids s (AL.erase (st.oids s) k)).setPaths s (AL.set (st.paths s) p (AL.erase b k))).slot s' p' k' =
-      if s' = s ∧ p' = p ∧ k' = k then none else st.slot s' p' k' := by
-  unfold St.slot
-  simp only [paths_setPaths, paths_setOids]
-  by_cases hs : s' = s
-  · subst hs
-    simp only [if_true, true_and, AL.get_set]
-    by_cases hp : p' = p
-    · subst hp
-      simp only [if_true, true_and, hb, AL.get_erase]
-    · simp [hp]
-  · simp [hs]
+/-! ### `forget_oid` (fix A) -/
 
 theorem forgetOid_eq (s : Sd) (k : Oid) (st : St) :
     forgetOid s k st =
       match AL.get (st.oids s) k with
       | none => (.ok (), st)
-      | some e =>
-        match AL.get (st.paths s) (st.side e s).path with
-        | none => (.error .key, st.setOids s (AL.erase (st.oids s) k))
-        | some b =>
-          match AL.get b k with
-          | none => (.error .key, st.setOids s (AL.erase (st.oids s) k))
-          | some _ => (.ok (), (st.setOids s (AL.erase (st.oids s) k)).setPaths s (AL.set (st.paths s) (st.side e s).path (AL.erase b k))) := by
+      | some e => (.ok (), ((st.setOids s (AL.erase (st.oids s) k)).popPathSlot s (st.side e s).path k).csDiscard e) := by
   simp only [forgetOid, M.bind_apply, getSt_apply]
-  cases AL.get (st.oids s) k with
-  | none => rfl
-  | some e =>
-    simp only [M.bind_apply, modifySt_apply]
-    cases AL.get (st.paths s) (st.side e s).path with
-    | none => rfl
-    | some b =>
-      simp only
-      cases AL.get b k with
-      | none => rfl
-      | some j => simp [modifySt_apply]
+  cases AL.get (st.oids s) k <;> rfl
 
-/-- `forget_oid` (state.py:756-759) keeps slot soundness on every outcome (it breaks the rest: see the counterexamples) -/
-theorem forget_sound (s : Sd) (k : Oid) (st : St) (hi : IndexInv st) : SlotSound (forgetOid s k st).2 := by
-  obtain ⟨b1, b2, b3, b4, b5, b6, b7⟩ := hi.1
-  have base : SlotSound st := ⟨b1, b2, b3, b5⟩
+/-- `forget_oid` raises nothing -/
+theorem forget_total (s : Sd) (k : Oid) (st : St) : (forgetOid s k st).1 = .ok () := by
+  rw [forgetOid_eq]; cases AL.get (st.oids s) k <;> rfl
+
+theorem popPathSlot_absent (st : St) (s : Sd) (p : Option Path.Str) (k : Oid) (h : AL.get (st.paths s) p = none) :
+    st.popPathSlot s p k = st := by
+  unfold St.popPathSlot; rw [h]
+
+/-- after `forget_oid(side, k)` of entry `e`: the index clauses hold with `(e, side)` exempt (the entry keeps its `oid`/`path`
+    fields), no slot of that side points to `e`, `e` is not pending, every other entry is pending when it must be -/
+theorem forget_inv (s : Sd) (k : Oid) (st : St) (hi : IndexInv st) :
+    match AL.get (st.oids s) k with
+    | none => (forgetOid s k st).2 = st
+    | some e => Idx (noX.add e s) (forgetOid s k st).2 ∧ Clean (forgetOid s k st).2 e s ∧ e ∉ (forgetOid s k st).2.cs ∧
+        ∀ i, i ≠ e → PendE i (forgetOid s k st).2 := by
   rw [forgetOid_eq]
   cases hk : AL.get (st.oids s) k with
-  | none => exact base
+  | none => rfl
   | some e =>
     simp only
-    have heo : (st.side e s).oid = k := b3 s k e hk
-    have hkn : k ≠ none := fun h => by rw [h, b2 s] at hk; cases hk
-    -- the state after the id slot is gone
-    have hmid : SlotSound (st.setOids s (AL.erase (st.oids s) k)) ∨ True := Or.inr trivial
-    cases hb : AL.get (st.paths s) (st.side e s).path with
-    | none =>
-      simp only
-      refine ⟨?_, ?_, ?_, ?_⟩
-      · intro s' k' i h; st_norm at h ⊢; grind
-      · intro s'; st_norm; grind
-      · intro s' k' i h; st_norm at h ⊢; grind
-      · intro s' p' k' i h; st_norm at h ⊢
-        have := b5 s' p' k' i h
-        have hne : ¬ (s' = s ∧ k' = k) := by
-          rintro ⟨rfl, rfl⟩
-          have h3 := this.2.2; rw [hk] at h3; cases h3
-          rw [this.1] at hb
-          unfold St.slot at h; rw [hb] at h; cases h
-        grind
-    | some b =>
-      simp only
-      cases hbk : AL.get b k with
-      | none =>
-        simp only
-        refine ⟨?_, ?_, ?_, ?_⟩
-        · intro s' k' i h; st_norm at h ⊢; grind
-        · intro s'; st_norm; grind
-        · intro s' k' i h; st_norm at h ⊢; grind
-        · intro s' p' k' i h; st_norm at h ⊢
-          have := b5 s' p' k' i h
-          have hne : ¬ (s' = s ∧ k' = k) := by
-            rintro ⟨rfl, rfl⟩
-            have h3 := this.2.2; rw [hk] at h3; cases h3
-            rw [this.1] at hb
-            unfold St.slot at h; rw [hb] at h; simp only at h; rw [hbk] at h; cases h
-          grind
-      | some j =>
-        simp only
-        refine ⟨?_, ?_, ?_, ?_⟩
-        · intro s' k' i h; st_norm at h ⊢; grind
-        · intro s'; st_norm; grind
-        · intro s' k' i h; st_norm at h ⊢; grind
-        · intro s' p' k' i h
-          rw [slot_forget_set st s _ b k hb] at h
-          st_norm
-          have hold := b5 s' p' k' i
-          by_cases hc : s' = s ∧ p' = (st.side e s).path ∧ k' = k
-          · rw [if_pos hc] at h; cases h
-          · rw [if_neg hc] at h
-            have := hold h
-            have hne : ¬ (s' = s ∧ k' = k) := by
-              rintro ⟨rfl, rfl⟩
-              have h3 := this.2.2; rw [hk] at h3; cases h3
-              exact hc ⟨rfl, this.1.symm, rfl⟩
-            grind
+    obtain ⟨hI1, hC⟩ := hi.1.unindex hk
+    -- the state is `unindex` followed by the pending-set discard
+    have hst : (st.setOids s (AL.erase (st.oids s) k)).popPathSlot s (st.side e s).path k = unindex st s k e := by
+      unfold unindex
+      by_cases ht : truthyS (st.side e s).path = true
+      · simp [ht]
+      · simp only [ht, Bool.false_eq_true, if_false]
+        apply popPathSlot_absent
+        simp only [paths_setOids]
+        cases hb : AL.get (st.paths s) (st.side e s).path with
+        | none => rfl
+        | some b => exact absurd (hi.1.pathKey s _ b hb).1 ht
+    rw [hst]
+    refine ⟨hI1.congr (by simp) (by simp) (by simp) (by simp), ?_, by simp, ?_⟩
+    · exact ⟨fun k' => by simpa using hC.1 k', fun p k' => by simpa using hC.2 p k'⟩
+    · intro i hie ⟨s', h1, h2⟩
+      simp only [side_csDiscard, side_unindex] at h1 h2
+      simp only [mem_csDiscard, cs_unindex]
+      exact ⟨hie, hi.2 i ⟨s', h1, h2⟩⟩
 
 /-! ### kernel-checked counterexamples (each is replayed on the real `SyncState` by harness/c11_state.py) -/
 
@@ -357,33 +258,29 @@ theorem cex_path_without_id : ¬ PathImpliesOid (run cfg0 10 ops_path_without_id
   fun h => h 0 .L (by decide +kernel) (by decide +kernel)
 
 /-- natural clause, FALSE: every entry of the pending set has a change flag on a side that has an id.
-    `update(LOCAL, FILE, "i1", path="/a")`, `mark_changed(REMOTE, ent)`, `ent[LOCAL].changed = None` -/
+    `update(LOCAL, FILE, "i1", path="/a")`, `ent[REMOTE].changed = 5`, `ent[LOCAL].oid = None`: the entry stays pending although
+    neither flagged side has an id (`_change_oid` only un-pends when the other side is not flagged) -/
 def PendingSound (st : St) : Prop :=
   ∀ i, i ∈ st.cs → ∃ s, (st.side i s).changed.truthy = true ∧ truthyS (st.side i s).oid = true
-def ops_pending_without_flag : List Op := [ev .L .file "i1" (some "/a"), .mark 0 .R, .setSide 0 .L (.changed .none)]
-theorem cex_pending_without_flag : ¬ PendingSound (run cfg0 10 ops_pending_without_flag init) := by
+def ops_pending_without_id : List Op := [ev .L .file "i1" (some "/a"), .setSide 0 .R (.changed (.num 5)), .setSide 0 .L (.oid none)]
+theorem cex_pending_without_id : ¬ PendingSound (run cfg0 10 ops_pending_without_id init) := by
   intro h
-  obtain ⟨s, h1, _⟩ := h 0 (by decide +kernel)
+  obtain ⟨s, _, h2⟩ := h 0 (by decide +kernel)
   cases s
-  · exact absurd h1 (by decide +kernel)
-  · exact absurd h1 (by decide +kernel)
+  · exact absurd h2 (by decide +kernel)
+  · exact absurd h2 (by decide +kernel)
 
-/-- FALSE: the pending set holds nothing that has been forgotten; `forget_oid` also leaves an empty bucket.
-    `update(LOCAL, FILE, "i1", path="/a")`, `forget_oid(LOCAL, "i1")` -/
+/-- repaired (fix B): the old failing input of `pending-without-flag` no longer leaves the entry pending -/
+def ops_pending_without_flag : List Op := [ev .L .file "i1" (some "/a"), .mark 0 .R, .setSide 0 .L (.changed .none)]
+theorem fixed_pending_without_flag : (run cfg0 10 ops_pending_without_flag init).cs = [] := by decide +kernel
+
+/-- repaired (fix A): `forget_oid` un-pends the entry, drops the emptied bucket, tolerates a pathless entry -/
 def ops_forget : List Op := [ev .L .file "i1" (some "/a"), .forget .L (some "i1".toList)]
-theorem cex_pending_holds_forgotten :
-    0 ∈ (run cfg0 10 ops_forget init).cs ∧ (run cfg0 10 ops_forget init).oids .L = [] ∧ (run cfg0 10 ops_forget init).oids .R = [] := by
+theorem fixed_forget :
+    (run cfg0 10 ops_forget init).cs = [] ∧ (run cfg0 10 ops_forget init).paths .L = [] ∧ (run cfg0 10 ops_forget init).oids .L = [] := by
   decide +kernel
-theorem cex_forget_empty_bucket : (run cfg0 10 ops_forget init).paths .L = [(some "/a".toList, [])] := by decide +kernel
-theorem cex_forget_breaks_inv : ¬ IndexInv (run cfg0 10 ops_forget init) := by
-  intro h
-  have := (h.1.pathKey .L (some "/a".toList) [] (by decide +kernel)).2.1
-  exact this rfl
-
-/-- `forget_oid` on an entry without a path raises KeyError after the id slot is gone.
-    `update(LOCAL, FILE, "i1")` (no path), `forget_oid(LOCAL, "i1")` -/
 def ops_forget_pathless : List Op := [ev .L .file "i1" none, .forget .L (some "i1".toList)]
-theorem cex_forget_keyerror : outcome cfg0 10 ops_forget_pathless init = some .key := by decide +kernel
+theorem fixed_forget_pathless : outcome cfg0 10 ops_forget_pathless init = none := by decide +kernel
 
 /-- after a reload absent sides are indexed under `None`; giving the side an id leaves the `(None, None)` slot stale.
     `update(LOCAL, FILE, "i1", path="/a")`, reload, `ent[REMOTE].oid = "r1"` -/
@@ -408,11 +305,10 @@ theorem fixed_self_recursion_terminates :
     outcome cfg0 10 ops_self_nest init = none ∧ ((run cfg0 10 ops_self_nest init).side 0 .L).path = some "/a/b".toList ∧
     (run cfg0 10 ops_self_nest init).slot .L (some "/a/b".toList) (some "o".toList) = some 0 := by decide +kernel
 
-/-- both sides flagged and id-less: a concrete instance of `changed_diverges` -/
+/-- repaired (fix B): both sides flagged and id-less no longer recurses -/
 def ops_changed_rec : List Op :=
   [ev .L .file "i1" (some "/a"), .setSide 0 .R (.changed (.num 1)), .setSide 0 .L (.oid none), .setSide 0 .L (.changed .none)]
-set_option maxRecDepth 100000 in
-theorem cex_changed_recursion : outcome cfg0 40 ops_changed_rec init = some .recursion := by decide +kernel
+theorem fixed_changed_recursion : outcome cfg0 10 ops_changed_rec init = none := by decide +kernel
 
 def isRec {α} : Except Exc α → Bool
   | .error .recursion => true
@@ -427,6 +323,10 @@ theorem flatK_init (cfg : Cfg) (s : Sd) : FlatK cfg s init := by
 /-- the hypotheses are satisfiable: a raw event from the empty state meets its guard … -/
 example : Guarded cfg0 10 [ev .L .file "i1" (some "/a")] init :=
   ⟨⟨flatK_init cfg0 .L, by decide +kernel⟩, ne_rec_of (by decide +kernel), trivial⟩
+
+/-- … `split` after it … -/
+example : Guarded cfg0 10 [.split 0, .setItem 0 .L 1 .L] (run cfg0 10 [ev .L .file "i1" (some "/a")] init) :=
+  ⟨trivial, ne_rec_of (by decide +kernel), Or.inr (by decide +kernel), ne_rec_of (by decide +kernel), trivial⟩
 
 /-- … and so do hooked assignments, `mark_changed` and `clear` after it -/
 example : Guarded cfg0 10 [.setSide 0 .L (.oid (some "x".toList)), .mark 0 .L, .clear 0 .L]
